@@ -49,7 +49,7 @@ type braceFn struct {
 	emits   bool
 	summary dset // possible net deltas at return
 	counts  map[delta]int
-	state   int  // 0 new, 1 in progress, 2 done
+	state   int // 0 new, 1 in progress, 2 done
 	undec   []string
 	loopBad []string
 }
@@ -470,18 +470,26 @@ func (e *braceEngine) analyze(bf *braceFn) {
 type bframe struct {
 	loop      bool
 	brk, cont dset
+	label     string
 }
 
 type bwalker struct {
-	e         *braceEngine
-	bf        *braceFn
-	at        *atomTable
-	mask      int
-	info      *types.Info
-	stable    func(ast.Expr) bool
-	atomsDesc string
-	returns   dset
-	breaks    []*bframe // stack for loops/switches
+	e            *braceEngine
+	bf           *braceFn
+	at           *atomTable
+	mask         int
+	info         *types.Info
+	stable       func(ast.Expr) bool
+	atomsDesc    string
+	returns      dset
+	breaks       []*bframe // stack for loops/switches
+	pendingLabel string    // label of the statement being entered
+}
+
+func (w *bwalker) takeLabel() string {
+	l := w.pendingLabel
+	w.pendingLabel = ""
+	return l
 }
 
 // cond evaluates a condition: 1 true, 0 false, -1 unknown (nondeterministic).
@@ -892,7 +900,7 @@ func (w *bwalker) stmt(s ast.Stmt, in dset) dset {
 			}
 			body = sw.Body
 		}
-		w.breaks = append(w.breaks, &bframe{brk: dset{}, cont: dset{}})
+		w.breaks = append(w.breaks, &bframe{brk: dset{}, cont: dset{}, label: w.takeLabel()})
 		out := dset{}
 		hasDefault := false
 		for i, cs := range body.List {
@@ -938,7 +946,7 @@ func (w *bwalker) stmt(s ast.Stmt, in dset) dset {
 			body = l.Body
 		}
 		// body must be neutral on every path (it may run any number of times)
-		w.breaks = append(w.breaks, &bframe{loop: true, brk: dset{}, cont: dset{}})
+		w.breaks = append(w.breaks, &bframe{loop: true, brk: dset{}, cont: dset{}, label: w.takeLabel()})
 		res := w.stmts(body.List, dset{delta{}: pathInfo{atoms: w.atomsDesc}})
 		fr := w.breaks[len(w.breaks)-1]
 		w.breaks = w.breaks[:len(w.breaks)-1]
@@ -953,7 +961,27 @@ func (w *bwalker) stmt(s ast.Stmt, in dset) dset {
 		switch t.Tok {
 		case token.BREAK, token.CONTINUE:
 			if t.Label != nil {
-				w.bf.undec = appendUniq(w.bf.undec, "labelled branch")
+				// the frame that carries the label receives the state
+				found := false
+				for i := len(w.breaks) - 1; i >= 0; i-- {
+					fr := w.breaks[i]
+					if fr.label != t.Label.Name {
+						continue
+					}
+					found = true
+					dst := fr.brk
+					if t.Tok == token.CONTINUE {
+						dst = fr.cont
+					}
+					for k, p := range in {
+						dst.add(k, p)
+					}
+					break
+				}
+				if !found {
+					w.bf.undec = appendUniq(w.bf.undec, "branch to an unknown label")
+				}
+				return dset{}
 			}
 			for i := len(w.breaks) - 1; i >= 0; i-- {
 				fr := w.breaks[i]
@@ -975,7 +1003,10 @@ func (w *bwalker) stmt(s ast.Stmt, in dset) dset {
 		w.bf.undec = appendUniq(w.bf.undec, "branch statement "+t.Tok.String())
 		return in
 	case *ast.LabeledStmt:
-		return w.stmt(t.Stmt, in)
+		w.pendingLabel = t.Label.Name
+		out := w.stmt(t.Stmt, in)
+		w.pendingLabel = ""
+		return out
 	case *ast.EmptyStmt:
 		return in
 	}
